@@ -11,6 +11,7 @@ import DuneVerif.Proofs.C12Render
 import DuneVerif.Proofs.C12Compat
 import DuneVerif.Proofs.C12Lex
 import DuneVerif.Proofs.C12Opt
+import DuneVerif.Proofs.C12R2
 
 namespace DV.C12
 
@@ -144,31 +145,67 @@ theorem groups_eq_dotted_tree (t s : Tree) (g k : Str) (f : Bool) (h : t.sub g f
 example : exTree.sub "fruit.pip".toList false = .ok (.node [("pear".toList, "a = b".toList)] []) := by rfl
 example : exTree.get? "fruit.pip.pear".toList = some "a = b".toList := by decide
 
-/-- **keys_in_first_appearance_order.**  After reading a document (overwrite = true), at every node `gs` of the
-    tree the value keys are the old ones followed by the new leaf names in order of first appearance in the
-    document, and likewise the sub keys with the new group names (`firstApp` scans the assignments below `gs`
-    in document order and appends a name when it is first seen) -/
-theorem keys_in_first_appearance_order (items : List Item) (hwf : ∀ it ∈ items, it.wf = true) (t t' : Tree)
-    (h : parseINI (renderDoc items) t true = .ok t') (gs : List Str) :
+/-- **groups_eq_dotted** (writing): the non-const `sub(g)` creates the group `g` (and nothing else: no value
+    changes), and assigning through a dotted key `g.k…` creates exactly the groups `sub(g)` creates — doing
+    `pt.sub(g)` first makes no difference to `pt[g.k] = v` -/
+theorem groups_eq_dotted_write (t t1 : Tree) (g : Str) (h : t.mkSub g = .ok t1) :
+    t1.hasSub g = .ok true ∧ (∀ q, t1.get? q = t.get? q) ∧
+    (∀ k v, t1.set (g ++ '.' :: k) v = t.set (g ++ '.' :: k) v) := by
+  refine ⟨mkSubPath_hasSub _ _ _ (comps_ne_nil g) h, fun q => mkSubPath_getPath _ _ _ h _, fun k v => ?_⟩
+  simp only [Tree.set, comps_dot]
+  exact mkSubPath_then_setPath _ _ v _ _ (comps_ne_nil k) h
+
+example : exTree.mkSub "fruit.new".toList =
+    .ok (.node [("x".toList, "1".toList), ("y".toList, "2".toList)]
+      [("fruit".toList, .node [("apple".toList, "green\n red ".toList)]
+        [("pip".toList, .node [("pear".toList, "a = b".toList)] []), ("new".toList, .node [] [])])]) := by rfl
+example : exTree.mkSub "x.sub".toList = .error .range := by rfl
+
+/-- **keys_in_first_appearance_order.**  After reading a document (either value of the overwrite flag), at every
+    node `gs` of the tree the value keys are the old ones followed by the new leaf names in order of first
+    appearance in the document, and likewise the sub keys with the new group names (`firstApp` scans the
+    assignments below `gs` in document order and appends a name when it is first seen).  With `overwrite = false`
+    an assignment to an existing key is skipped, which adds no name — the statement is literally the same. -/
+theorem keys_in_first_appearance_order (items : List Item) (hwf : ∀ it ∈ items, it.wf = true) (t t' : Tree) (ow : Bool)
+    (h : parseINI (renderDoc items) t ow = .ok t') (gs : List Str) :
     names (nodeAt gs t').vals =
         firstApp (names (nodeAt gs t).vals) ((descend gs (pathsOf (denote [] items))).map (fun e => leafOf e.1)) ∧
     names (nodeAt gs t').subs =
         firstApp (names (nodeAt gs t).subs) ((descend gs (pathsOf (denote [] items))).map (fun e => groupOf e.1)) := by
   rw [parseINI_renderDoc items hwf] at h
-  cases ha : applyAll true (denote [] items) ⟨[], [], t⟩ with
+  cases ha : applyAll ow (denote [] items) ⟨[], [], t⟩ with
   | error e => rw [ha] at h; simp at h
   | ok st =>
     rw [ha, andThen_ok] at h
     injection h with h
-    have h1 := applyAll_true_setAllP _ _ _ ha
-    rw [h] at h1
-    exact setAllP_root_names _ _ _ (setAllP_nodeAt gs _ _ _ h1)
+    obtain ⟨ps, hp1, hp2⟩ := applyAll_setAllP_any ow _ _ _ ha
+    rw [h] at hp2
+    have hk : ps.map (·.1) = (pathsOf (denote [] items)).map (·.1) := by
+      rw [hp1]; simp [pathsOf, List.map_map, Function.comp_def]
+    have hn := setAllP_root_names _ _ _ (setAllP_nodeAt gs _ _ _ hp2)
+    have hd := descend_fst gs _ _ hk
+    rw [map_comp_fst leafOf, map_comp_fst groupOf] at hn
+    rw [map_comp_fst leafOf, map_comp_fst groupOf, ← hd]
+    exact hn
 
 /-- e.g. `b.x`, `a`, `b.y`, `c.z`, `a2`: value keys `a, a2`; sub keys `b, c`; inside `b`: `x, y` -/
 example : parseINI "b.x = 1\na = 2\nb.y = 3\nc.z = 4\na2 = 5".toList .empty true =
     .ok (.node [("a".toList, "2".toList), ("a2".toList, "5".toList)]
       [("b".toList, .node [("x".toList, "1".toList), ("y".toList, "3".toList)] []),
        ("c".toList, .node [("z".toList, "4".toList)] [])]) := by rfl
+/-- the theorem instantiated: second source without overwrite; `x` exists (skipped), `z` and the group `g` are new -/
+example :
+    let items : List Item := [.assign [] "x".toList [] [] none "9".toList [] none, .assign [] "g.k".toList [] [] none "1".toList [] none,
+      .assign [] "z".toList [] [] none "2".toList [] none]
+    let t : Tree := .node [("y".toList, "0".toList), ("x".toList, "1".toList)] []
+    parseINI (renderDoc items) t false =
+        .ok (.node [("y".toList, "0".toList), ("x".toList, "1".toList), ("z".toList, "2".toList)]
+          [("g".toList, .node [("k".toList, "1".toList)] [])]) ∧
+    firstApp (names t.vals) ((descend [] (pathsOf (denote [] items))).map (fun e => leafOf e.1)) =
+      ["y".toList, "x".toList, "z".toList] := by
+  constructor
+  · rfl
+  · decide
 example : firstApp ["a".toList] [some "b".toList, none, some "a".toList, some "c".toList, some "b".toList] =
     ["a".toList, "b".toList, "c".toList] := by decide
 
@@ -269,6 +306,23 @@ theorem parse_total (doc : Str) (t : Tree) (ow : Bool) : parseINI doc t ow ≠ .
 
 example : parseINI "k = \"".toList .empty true = .ok (.node [("k".toList, [])] []) := by rfl
 example : parseINI "k = 'a\n\n".toList .empty true = .ok (.node [("k".toList, "a\n\n".toList)] []) := by rfl
+
+/-- a source that fails while it is read (stream turns bad after `n` bytes; fixes/C12_badstream.patch) is never
+    accepted: the result is the error of the text read so far if there is one, the IOError otherwise.
+    (True by unfolding `parseBad`; it records the modelled behaviour, the harness exercises the real loop.) -/
+theorem failing_source_is_error (doc : Str) (n : Nat) (t : Tree) (ow : Bool) :
+    (∀ t', parseBad doc n t ow ≠ .ok t') ∧ parseBad doc n t ow ≠ .error .fuel ∧
+    (∀ t', parseINI (doc.take n) t ow = .ok t' → parseBad doc n t ow = .error .io) := by
+  unfold parseBad
+  refine ⟨fun t' => ?_, ?_, fun t' h => by rw [h]⟩
+  · cases parseINI (doc.take n) t ow <;> simp
+  · have := parse_total (doc.take n) t ow
+    cases h : parseINI (doc.take n) t ow with
+    | error e => rw [h] at this; simpa using this
+    | ok _ => simp
+
+example : parseBad "a = 1\nb = 2".toList 7 .empty true = .error .io := by rfl
+example : parseBad "a = 1\na = 2".toList 11 .empty true = .error .parser := by rfl
 
 /-! ## command line -/
 
@@ -391,18 +445,51 @@ example : parseRange (extractInt ⟨true, 32⟩) 2 "1".toList = none := by decid
 example : parseRange (extractInt ⟨true, 32⟩) 2 "1 2 3".toList = none := by decide
 example : parseRange (extractInt ⟨true, 32⟩) 2 "1 2 -".toList = none := by decide
 
-/-- variable-size sequences and bitsets: the text is split at blanks (`" \t\n\r"`), every piece is converted by the
-    element parser — all of them must convert — and a bitset needs exactly `n` pieces -/
+/-- variable-size sequences, bitsets, strings: the text is split into its maximal runs of non-blank characters
+    (blank set `" \t\n\r"`; `WordsOf` is the declarative definition, independent of the splitting loop); a vector
+    converts iff every piece converts by the element parser, a bitset iff there are exactly `n` pieces and each is a
+    boolean; a string is returned with the blanks at both ends removed, i.e. it is the unique trimmed middle part -/
 theorem sequences_spec {α} (p : Str → Option α) (n : Nat) (s : Str) :
+    (∀ ws, splitWs s = ws ↔ WordsOf isWs s ws) ∧
     (∀ vs, parseVector p s = some vs ↔ Forall₂ (fun tok v => p tok = some v) (splitWs s) vs) ∧
-    (∀ bs, parseBitset n s = some bs → bs.length = n ∧ (splitWs s).length = n) ∧
-    parseString s = ltrim (rtrim s) :=
-  ⟨fun vs => parseVector_iff p s vs, fun bs h => parseBitset_length n s bs h, rfl⟩
+    (∀ bs, parseBitset n s = some bs ↔
+      (splitWs s).length = n ∧ Forall₂ (fun tok b => parseBool tok = some b) (splitWs s) bs) ∧
+    (∀ m, parseString s = m ↔
+      ∃ pre post, s = pre ++ m ++ post ∧ (∀ c ∈ pre, isWs c = true) ∧ (∀ c ∈ post, isWs c = true) ∧ trimmed m = true) :=
+  ⟨fun ws => splitWs_iff s ws, fun vs => parseVector_iff p s vs, fun bs => parseBitset_iff n s bs,
+   fun m => parseString_iff s m⟩
 
 example : parseVector (parseInt tInt) " 1  2\t3 ".toList = some [1, 2, 3] := by decide
 example : parseVector (parseInt tInt) "1 2x 3".toList = none := by decide
 example : parseBitset 3 "1 no TRUE".toList = some [true, false, true] ∧ parseBitset 3 "1 no".toList = none := by decide
 example : parseString "  a b \r\n".toList = "a b".toList := by decide
+example : WordsOf isWs " a  bc".toList ["a".toList, "bc".toList] :=
+  (splitWs_iff _ _).mp (by decide)
+
+/-- fixed-size arrays of strings and single characters (`operator>>` into `std::string` / `char`, blank class of
+    the classic locale): exactly `n` words; exactly one non-blank character between blanks -/
+theorem words_and_chars_spec (n : Nat) (s : Str) :
+    (∀ ws, parseRange extractWord n s = some ws ↔ ws.length = n ∧ WordsOf isSpaceC s ws) ∧
+    (∀ c, parseScalar extractChar s = some c ↔
+      ∃ pre post, s = pre ++ c :: post ∧ AllSpace pre ∧ AllSpace post ∧ isSpaceC c = false) :=
+  ⟨fun ws => parseRange_word_iff n s ws, fun c => parseChar_iff s c⟩
+
+example : parseRange extractWord 2 " ab\x0bc ".toList = some ["ab".toList, "c".toList] := by decide
+example : parseRange extractWord 2 "ab".toList = none ∧ parseRange extractWord 1 "a b".toList = none := by decide
+example : parseScalar extractChar " x\n".toList = some 'x' ∧ parseScalar extractChar "xy".toList = none ∧
+    parseScalar extractChar "".toList = none := by decide
+
+/-- **sequences round trip.**  The canonical decimal texts of in-range integers, separated by single blanks, convert
+    back to exactly those integers, both as a fixed-size range (`std::array`, `FieldVector`) of that length and as a
+    `std::vector` -/
+theorem get_sequence_roundtrip (ty : IntTy) (vs : List Int) (h : ∀ v ∈ vs, ty.lo ≤ v ∧ v ≤ ty.hi) :
+    parseRange (extractInt ty) vs.length (joinC ' ' (vs.map showInt)) = some vs ∧
+    parseVector (parseInt ty) (joinC ' ' (vs.map showInt)) = some vs :=
+  ⟨roundtrip_range ty vs h, roundtrip_vector ty vs h⟩
+
+example : joinC ' ' ([3, -4, 0].map showInt) = "3 -4 0".toList := by
+  simp [joinC, showInt, showNat_lt]; decide
+example : ∀ v ∈ [3, -4, 0], tInt.lo ≤ v ∧ v ≤ tInt.hi := by decide
 
 /-- **get_default_only_if_absent.**  `get(key, default)` returns the default exactly when the key is absent; a
     present key is converted, and if its text is malformed the result is the RangeError, never the default -/
